@@ -36,7 +36,9 @@ RULE = ("per task (compress, condense, repack, join with 2-3 inputs, split into 
         "tdms2rtdc on the smallest fixture - both tiers) and generated input (feature sets with "
         "scalars/image/contour/trace/logs/tables, raw layout without min/max/mean attributes, "
         "all-NaN scalar feature so that tasks emit warnings; the first case of every task has all "
-        "of these; optional stale output / stale temporary file): record "
+        "of these, the second case of every task applies the task to its own earlier output "
+        "(compress(compress x), condense(condense x), repack(repack x), join([join(a,b),c]), "
+        "split(part of split x)); optional stale output / stale temporary file): record "
         "the operation trace of a successful run, let the Lean driver decide `Conforms` and predict "
         "the output state at every crash point; then re-run with operation k raising OSError "
         "(quick: ~40 k per case, stratified: first/last, around every open/close/rename, all "
@@ -46,7 +48,12 @@ RULE = ("per task (compress, condense, repack, join with 2-3 inputs, split into 
         "is run again, undisturbed, in the directory the failed run left behind (two-run history; "
         "its trace is checked for Conforms and freshFrom, its outputs must be complete); classify every "
         "output path as absent / untouched / complete(== successful output, loadable) / partial, "
-        "compare with the prediction, compare sha256 of inputs. One evaluation = one injected run; "
+        "compare with the prediction, compare sha256 of inputs. An injected failing close of a file "
+        "open for writing truncates the file (failed flush). Traced paths are canonical (realpath, "
+        "hard links of inputs by inode). In addition, per task using setup_task_paths, the output "
+        "path is given as an alias of an input (same, directory symlink, file symlink, '..', "
+        "relative, missing suffix, hard link, input through the link, second join input): inputs "
+        "must be byte-identical whether or not the task succeeds. One evaluation = one injected run; "
         "distinct = distinct (task, input, k, fault kind) with at least one write before k.")
 TRUSTED_BASE = [
     "modelled, not verified: POSIX rename atomicity, HDF5 flushing on close, the completeness of "
@@ -91,11 +98,12 @@ def gen_input(rng, tag, rich=False):
             "time": "10:%02d:%02d" % (rng.randrange(60), rng.randrange(60))}
 
 
-def gen_case(rng, task, rich=False):
+def gen_case(rng, task, rich=False, own_output=False):
     """`rich`: every input has tables, logs, raw layout and an all-NaN feature (the first case of
     every task, so that each run covers these input classes whatever the seed)"""
     spec = {"task": task, "seed": rng.randrange(2 ** 30)}
-    nin = {"join": rng.choice([2, 3])}.get(task, 1)
+    spec["own_output"] = own_output
+    nin = {"join": 3 if own_output else rng.choice([2, 3])}.get(task, 1)
     spec["inputs"] = [gen_input(rng, i, rich) for i in range(nin)]
     for inp in spec["inputs"][1:]:
         # same feature set for all join inputs: C10 is not about feature pruning (C09 / F10)
@@ -108,7 +116,9 @@ def gen_case(rng, task, rich=False):
     spec["stale_temp"] = task != "split" and rng.random() < 0.4
     if task == "split":
         n = len(spec["inputs"][0]["tokens"])
-        spec["split_events"] = rng.choice([1, 2, max(1, n // 2), n - 1])
+        if own_output:
+            n = max(2, n - 2)      # the first part of the preceding split is the input
+        spec["split_events"] = rng.choice([1, 2, max(1, n // 2), max(1, n - 1)])
         spec["same_dir"] = rng.random() < 0.5
     if task == "repack":
         spec["strip_logs"] = rng.random() < 0.5
@@ -143,7 +153,39 @@ def materialise(spec, d):
         ins.append(str(p))
     # a valid small file used as stale output
     gen.make_rtdc(d / "_stale.bin", [901, 902], feats=("deform", "area_um"))
+    if spec.get("own_output"):
+        ins = own_output_inputs(spec, d, ins)
     return ins
+
+
+def own_output_inputs(spec, d, ins):
+    """history: the input of the run under test is itself the result of an earlier (undisturbed)
+    run of the same task — compress(compress x), condense(condense x), repack(repack x),
+    join([join(a, b), c]), split(first part of split x)"""
+    from dclab import cli
+    import contextlib
+    import io
+    task = spec["task"]
+    pre = d / "in_own.rtdc"
+    with contextlib.redirect_stdout(io.StringIO()):
+        if task == "compress":
+            cli.compress(path_in=ins[0], path_out=pre)
+        elif task == "condense":
+            cli.condense(path_in=ins[0], path_out=pre,
+                         store_ancillary_features=spec["ancillaries"])
+        elif task == "repack":
+            cli.repack(path_in=ins[0], path_out=pre)
+        elif task == "join":
+            cli.join(paths_in=ins[:2], path_out=pre)
+            return [str(pre)] + ins[2:]
+        elif task == "split":
+            n = len(spec["inputs"][0]["tokens"])
+            parts = cli.split(path_in=pathlib.Path(ins[0]), path_out=d / "presplit",
+                              split_events=max(2, n - 2), ret_out_paths=True)
+            shutil.copyfile(parts[0], pre)
+        else:
+            return ins
+    return [str(pre)]
 
 
 def finish_input(path, inp):
@@ -167,7 +209,9 @@ def finish_input(path, inp):
 def out_paths(spec, d, ins):
     """requested output paths (for split: as predicted from N and split_events)"""
     if spec["task"] == "split":
-        n = len(spec["inputs"][0]["tokens"])
+        import h5py
+        with h5py.File(ins[0], "r") as h:
+            n = len(h["events/deform"])
         s = spec["split_events"]
         parts = n // s + (1 if n % s else 0)
         od = d if spec["same_dir"] else d / "parts"
@@ -176,9 +220,12 @@ def out_paths(spec, d, ins):
     return [str(d / "out.rtdc")]
 
 
+KEEP = {}     # directory -> files that belong to the pre-task state (inputs and their ancestors)
+
+
 def prepare(spec, d, ins, outs):
     """reset the directory to the pre-task state"""
-    keep = set(ins) | {str(d / "_stale.bin")}
+    keep = set(ins) | {str(d / "_stale.bin")} | KEEP.get(str(d), set())
     for p in sorted(d.rglob("*"), reverse=True):
         if p.is_file() and str(p) not in keep:
             p.unlink()
@@ -238,7 +285,7 @@ def run_child(spec, d, ins, outs, fail_at=None, kind="raise"):
             os.dup2(devnull, 1)
             os.dup2(devnull, 2)
             TRACER.install()
-            TRACER.start(d, fail_at=fail_at, kind=kind)
+            TRACER.start(d, fail_at=fail_at, kind=kind, inputs=ins)
             try:
                 run_task(spec, d, ins, outs)
                 status = "ok"
@@ -365,10 +412,16 @@ def choose_ks(rng, ops, labels, mode, target=40):
     kills = {rng.randrange(n), rng.randrange(n), n - 1}
     for i in ren:
         kills.update((i, i + 1, i + 2))
+    opens = [i for i, op in enumerate(ops) if op[0] in ("create", "openAppend")]
+    for i in opens[-2:]:          # inside and right after the last files opened for writing
+        kills.update((i + 1, i + 3))
+    closes = [i for i, op in enumerate(ops) if op[0] == "close"]
+    for i in closes[-2:]:
+        kills.update((i, i + 1))
     kills = sorted(k for k in kills if 0 <= k < n)
-    if len(kills) > 8:
+    if len(kills) > 10:
         keep = {k for i in ren[-1:] for k in (i, i + 1, i + 2) if k < n}
-        kills = sorted(keep | set(rng.sample(kills, 8 - len(keep))))
+        kills = sorted(keep | set(rng.sample(kills, 10 - len(keep))))
     return sorted(ks), kills
 
 
@@ -377,10 +430,11 @@ def do_case(args):
     spec, workdir, mode, only = args
     import random
     rng = random.Random(spec["seed"])
-    d = pathlib.Path(workdir)
+    d = pathlib.Path(os.path.realpath(workdir))
     if d.exists():
         shutil.rmtree(d)
     ins = materialise(spec, d)
+    KEEP[str(d)] = {str(p) for p in d.rglob("*") if p.is_file()}
     outs = out_paths(spec, d, ins)
     temps = [o + "~" for o in outs]
     in_sha = {p: sha(p) for p in ins}
@@ -475,6 +529,155 @@ def do_case(args):
     return rec
 
 
+
+# --------------------------------------------------------------------------------------
+# output paths that alias an input
+ALIAS_TASKS = ["compress", "condense", "repack", "join"]
+ALIAS_SPELLINGS = ["same", "dir-symlink", "file-symlink", "dotdot", "relative", "relative-dotdot",
+                   "no-suffix", "hard-link", "input-through-link", "second-input"]
+
+
+def alias_paths(d, spelling):
+    """(input spellings, output spelling) for one aliasing scenario; cwd of the task is `d`"""
+    data = d / "data"
+    ins = [str(data / "m.rtdc"), str(data / "m2.rtdc")]
+    out = {
+        "same": str(data / "m.rtdc"),
+        "dir-symlink": str(d / "current" / "m.rtdc"),          # current -> data
+        "file-symlink": str(d / "link.rtdc"),                   # link.rtdc -> data/m.rtdc
+        "dotdot": str(data / "sub" / ".." / "m.rtdc"),
+        "relative": os.path.join("data", "m.rtdc"),
+        "relative-dotdot": os.path.join("current", "..", "data", "m.rtdc"),
+        "no-suffix": str(data / "m"),
+        "hard-link": str(d / "hard.rtdc"),                      # second name of the same inode
+        "input-through-link": str(data / "m.rtdc"),
+        "second-input": str(d / "current" / "m2.rtdc"),
+    }[spelling]
+    if spelling == "input-through-link":
+        ins[0] = str(d / "current" / "m.rtdc")
+    return ins, out
+
+
+def do_alias_case(args):
+    """worker: one task, every aliasing spelling of the output path; no fault injection — the
+    inputs must be byte-identical afterwards whether or not the task succeeds"""
+    _tag, task, seed, workdir = args
+    import random
+    rng = random.Random(seed)
+    d = pathlib.Path(os.path.realpath(workdir))
+    if d.exists():
+        shutil.rmtree(d)
+    (d / "data" / "sub").mkdir(parents=True)
+    (d / "_backup").mkdir()
+    canon = [str(d / "data" / "m.rtdc"), str(d / "data" / "m2.rtdc")]
+    for i, c in enumerate(canon):
+        inp = gen_input(rng, i, rich=(i == 0))
+        inp["feats"] = ["deform", "area_um", "temp"]
+        gen.make_rtdc(c, inp["tokens"], feats=inp["feats"], logs=inp["logs"],
+                      meta={"experiment": {"time": inp["time"]}})
+        finish_input(c, inp)
+        shutil.copyfile(c, d / "_backup" / pathlib.Path(c).name)
+    shas = {c: sha(c) for c in canon}
+    nin = 2 if task == "join" else 1
+    rec = {"task": task, "seed": seed, "results": []}
+    for spelling in ALIAS_SPELLINGS:
+        if spelling == "second-input" and task != "join":
+            continue
+        # pre-task state
+        for c in canon:
+            if not pathlib.Path(c).exists() or sha(c) != shas[c]:
+                shutil.copyfile(d / "_backup" / pathlib.Path(c).name, c)
+        for p in sorted(d.rglob("*"), reverse=True):
+            if (p.is_file() or p.is_symlink()) and str(p) not in canon \
+                    and p.parent.name != "_backup":
+                p.unlink()
+        os.symlink(d / "data", d / "current")
+        os.symlink(d / "data" / "m.rtdc", d / "link.rtdc")
+        os.link(d / "data" / "m.rtdc", d / "hard.rtdc")
+        ins_sp, out_sp = alias_paths(d, spelling)
+        ins_sp = ins_sp[:nin]
+        spec = {"task": task, "ancillaries": True, "strip_logs": False}
+        res = d.parent / (d.name + ".res.json")
+        if res.exists():
+            res.unlink()
+        sys.stdout.flush()
+        sys.stderr.flush()
+        pid = os.fork()
+        if pid == 0:
+            code = 0
+            try:
+                devnull = os.open(os.devnull, os.O_WRONLY)
+                os.dup2(devnull, 1)
+                os.dup2(devnull, 2)
+                os.chdir(d)
+                TRACER.install()
+                TRACER.start(d, inputs=canon[:nin])
+                try:
+                    run_task(spec, d, ins_sp, [out_sp])
+                    status = "ok"
+                except BaseException as e:  # noqa
+                    status = f"exc:{type(e).__name__}:{str(e)[:100]}"
+                ops = TRACER.stop()
+                res.write_text(json.dumps({"status": status, "ops": ops}))
+            except BaseException:
+                code = 3
+            finally:
+                os._exit(code)
+        _, st = os.waitpid(pid, 0)
+        if os.waitstatus_to_exitcode(st) != 0 or not res.exists():
+            rec["results"].append({"spelling": spelling, "status": "child-failed", "ops": 0,
+                                   "inputs_ok": False, "why": "harness child failed",
+                                   "line": None, "out": "?"})
+            continue
+        data = json.loads(res.read_text())
+        res.unlink()
+        ops = [tuple(o) for o in data["ops"]]
+        why = None
+        for c in canon[:nin]:
+            if not pathlib.Path(c).exists():
+                why = f"input {pathlib.Path(c).name} no longer exists"
+            elif sha(c) != shas[c]:
+                why = f"input {pathlib.Path(c).name} changed"
+        # the output, where it is a file of its own, must be absent or loadable
+        outp = pathlib.Path(out_sp if os.path.isabs(out_sp) else d / out_sp)
+        if outp.suffix != ".rtdc":
+            outp = outp.with_name(outp.name + ".rtdc")
+        out_state = "alias"
+        real_out = os.path.realpath(outp)
+        if real_out not in canon:
+            out_state = "a"
+            if outp.exists():
+                same_inode = any(os.path.exists(c) and os.path.samefile(outp, c) for c in canon)
+                try:
+                    if not same_inode:
+                        summarize(outp)
+                    out_state = "u" if same_inode else "c"
+                except Exception as e:  # noqa
+                    out_state = f"p:not loadable ({type(e).__name__})"
+        entry = os.path.join(os.path.realpath(outp.parent), outp.name)
+        roles = {c: i for i, c in enumerate(canon[:nin])}
+        outs_r = []
+        if entry not in roles and real_out not in roles:
+            roles[entry] = len(roles)
+            outs_r = [roles[entry]]
+        temp = entry + "~"
+        roles.setdefault(temp, len(roles))
+        existing = list(range(nin)) + ([roles[entry]] if spelling == "hard-link" else [])
+        toks = encode_trace(ops, roles)
+        lst = lambda xs: ",".join(str(x) for x in xs) if xs else "-"      # noqa: E731
+        line = "trace %s %s %s %s %s" % (lst(list(range(nin))), lst(outs_r), lst([roles[temp]]),
+                                         lst(existing), lst(toks))
+        rec["results"].append({"spelling": spelling, "status": data["status"], "ops": len(ops),
+                               "inputs_ok": why is None, "why": why, "line": line,
+                               "out": out_state})
+    shutil.rmtree(d, ignore_errors=True)
+    return rec
+
+
+def work(args):
+    return do_alias_case(args) if args[0] == "alias" else do_case(args)
+
+
 # --------------------------------------------------------------------------------------
 def pool_map(jobs):
     if not jobs:
@@ -482,7 +685,7 @@ def pool_map(jobs):
     workers = min(len(jobs), max(1, min(12, (os.cpu_count() or 2) - 2)))
     mpctx = multiprocessing.get_context("fork")
     with concurrent.futures.ProcessPoolExecutor(max_workers=workers, mp_context=mpctx) as ex:
-        return list(ex.map(do_case, jobs))
+        return list(ex.map(work, jobs))
 
 
 def evaluate_rerun(ctx, spec, r, answers, mirror, rec):
@@ -510,6 +713,32 @@ def evaluate_rerun(ctx, spec, r, answers, mirror, rec):
     if ans is not None and (not ans.startswith("conforms") or not ans.endswith("fresh")):
         mirror.append((rec, {"k": r["k"], "kind": r["kind"] + "+rerun", "states": r2["states"]},
                        ["re-run trace: " + " ".join(ans.split()[:2] + ans.split()[-1:])]))
+
+
+def evaluate_alias(ctx, alias_recs, answers):
+    """output paths that alias an input: inputs byte-identical whether or not the task succeeds"""
+    for rec in alias_recs:
+        for r in rec["results"]:
+            rp = {"alias_task": rec["task"], "seed": rec["seed"], "spelling": r["spelling"]}
+            ctx.case(("alias", rec["task"], r["spelling"]), nontrivial=True)
+            ctx.stat("alias:" + r["spelling"])
+            ctx.stat("alias-outcome:" + r["status"].split(":")[1 if r["status"] != "ok" else 0])
+            if not r["inputs_ok"]:
+                ctx.violation("spec", f"{rec['task']}: output path given as an alias of an input "
+                                      f"({r['spelling']}): {r['why']} (task: {r['status'][:80]})",
+                              rp)
+                continue
+            if r["out"].startswith("p"):
+                ctx.violation("spec", f"{rec['task']}: output path ({r['spelling']}) holds a "
+                                      f"partial file: {r['out'][2:]}", rp)
+                continue
+            ans = (answers or {}).get(r["line"])
+            if ans is not None and not ans.startswith("conforms"):
+                ctx.violation("mirror", f"{rec['task']}: trace of the run with an aliased output "
+                                        f"path ({r['spelling']}) violates the protocol at operation "
+                                        f"{ans.split()[1]} although the inputs are unchanged",
+                              dict(rp, correspondence="Drive/C10.lean Conforms vs traced task",
+                                   trace=r["line"][:2000]))
 
 
 def evaluate(ctx, rec, pred, verdict, rerun_answers=None):
@@ -554,11 +783,15 @@ def run(ctx):
     per_task = ctx.n(3, 8) if ctx.lean_ok else ctx.n(1, 2)
     for task in TASKS:
         for j in range(per_task):
-            cases.append(gen_case(ctx.rng, task, rich=(j == 0)))
+            # case 0: rich input; case 1: the task applied to its own earlier output
+            cases.append(gen_case(ctx.rng, task, rich=(j == 0), own_output=(j == 1)))
     cases.insert(0, tdms_case())          # slowest case first
     mode = "all" if (ctx.thorough or not ctx.lean_ok) else "sample"
     jobs = [(spec, str(ctx.workdir / f"case{i}"), mode, None) for i, spec in enumerate(cases)]
-    recs = pool_map(jobs)
+    alias_jobs = [("alias", task, ctx.rng.randrange(2 ** 30), str(ctx.workdir / f"alias_{task}"))
+                  for task in ALIAS_TASKS]
+    results = pool_map(jobs + alias_jobs)
+    recs, alias_recs = results[:len(jobs)], results[len(jobs):]
     for rec in recs:
         if rec["problem"]:
             raise RuntimeError(f"C10 harness: {rec['spec']['task']}: {rec['problem']}")
@@ -567,7 +800,10 @@ def run(ctx):
     if ctx.lean_ok:
         relines = sorted({r["rerun"]["line"] for rec in recs for r in rec["results"]
                           if r.get("rerun") and r["rerun"]["line"]})
-        out = ctx.lean("C10", [r["line"] for r in recs] + relines)
+        alines = sorted({r["line"] for rec in alias_recs for r in rec["results"] if r["line"]})
+        out = ctx.lean("C10", [r["line"] for r in recs] + relines + alines)
+        alias_answers = dict(zip(alines, out[len(recs) + len(relines):]))
+        out = out[:len(recs) + len(relines)]
         for i, line in enumerate(out):
             w = line.split()
             if w[0] not in ("conforms", "violates"):
@@ -577,6 +813,7 @@ def run(ctx):
                 preds[i] = w[2].split("|") if len(w) > 3 else []
         rerun_answers = dict(zip(relines, out[len(recs):]))
         ctx.stat("rerun-traces-checked", len(relines))
+    evaluate_alias(ctx, alias_recs, alias_answers if ctx.lean_ok else None)
     redo = []
     for i, rec in enumerate(recs):
         ctx.stat("ops", rec["n_ops"])
@@ -618,6 +855,15 @@ def run(ctx):
 
 def replay(ctx, data):
     rp = data["replay"]
+    if "alias_task" in rp:
+        rec = do_alias_case(("alias", rp["alias_task"], rp["seed"], str(ctx.workdir / "alias")))
+        fails = False
+        for r in rec["results"]:
+            if r["spelling"] == rp["spelling"]:
+                print(f"task={rec['task']} spelling={r['spelling']} status={r['status']} "
+                      f"inputs_ok={r['inputs_ok']} why={r['why']} out={r['out']}")
+                fails = fails or not r["inputs_ok"] or r["out"].startswith("p")
+        return fails
     if "spec" not in rp:
         print("no concrete input in this replay file:", json.dumps(rp)[:400])
         return True
